@@ -6,6 +6,7 @@ operation histories. One run = one history in a pristine process.
 
 from __future__ import annotations
 
+import json
 import math
 import random
 from fractions import Fraction
@@ -540,6 +541,8 @@ def st_history(spec, log, stats):
             if not inplace:
                 if res is src:
                     raise core.Violation("C08.returns-new-dataset", f"{what}: filter returned its input object")
+                if any(res is o for o in pool):
+                    raise core.Violation("C08.returns-new-dataset", f"{what}: filter returned an object that already exists (the result of an earlier application), not a new dataset")
                 check_unchanged(src, m, what)
             for j, om, on in others:
                 om.n_mazes_cfg = on
@@ -731,6 +734,15 @@ def gen_specs(rng: random.Random, tier: str, n: int) -> list[dict]:
                 ops.append(["filter", -1, dict(ops[-1][2])])
                 if rng.random() < 0.5:
                     ops.append(["config_chain", -1, cfg["n_mazes"]])
+            elif r < 0.20 and ops[-1][0] == "filter" and ops[-1][2]["name"] != "collect_generation_meta" and "sym" not in ops[-1][2]:
+                # the very same application (same source object, same filter, same arguments) once more, optionally with the
+                # documented in-place metadata collection on the source in between: the second result is a new dataset that
+                # reflects the source as it is then
+                if rng.random() < 0.5:
+                    ops.append(["filter", ops[-1][1], {"name": "collect_generation_meta", "args": [], "kwargs": {}}])
+                    ops.append(["filter", ops[-2][1], json.loads(json.dumps(ops[-2][2]))])
+                else:
+                    ops.append(["filter", ops[-1][1], json.loads(json.dumps(ops[-1][2]))])
             elif r < 0.88:
                 ops.append(["filter", rng.randrange(8), rand_filter(rng)])
             else:
